@@ -138,6 +138,17 @@ theorem take_mergeKeys_take (a c : List Nat) (n j : Nat) (h : n ≤ j) :
       simp only [List.take_succ_cons]
       rw [mergeKeys]; simp only [hnlt, hne, if_false, List.take_succ_cons]; rw [this]
 
+theorem take_union_take {a c : List Nat} (ha : SInc a) (hc : SInc c) (n : Nat) :
+    (union (a.take n) c).take n = (union a c).take n := by
+  rw [← mergeKeys_eq_union (sinc_take n ha) hc, ← mergeKeys_eq_union ha hc]
+  exact take_mergeKeys_take a c n n (Nat.le_refl n)
+
+theorem bottom_union_bottom {a c : List Nat} (ha : SInc a) (hc : SInc c) (n : Nat) :
+    bottom n (union (bottom n a) c) = bottom n (union a c) := by
+  unfold bottom; split
+  · rfl
+  · exact take_union_take ha hc n
+
 /-! ### `interIter` / `interWalk` / `interSizeWalk` -/
 
 theorem mem_interIter {a b : List Nat} (ha : SInc a) (hb : SInc b) (z : Nat) :
